@@ -337,12 +337,23 @@ void Ruleset::registerRunnableRulesetForCgroupPath(
   auto action_group = std::vector<std::unique_ptr<BasePlugin>>();
   action_group.reserve(action_group_.size());
   for (auto it = action_group_.begin(); it != action_group_.end(); ++it) {
-    auto plugin = registry.create(it->get()->getName());
+    const PluginConstructionContext plugin_context(cgroup.cgroupFs());
+    std::unique_ptr<BasePlugin> plugin(registry.create(it->get()->getName()));
     plugin->setName(it->get()->getName());
     auto args = it->get()->getPluginArgs();
     args.try_emplace("cgroup", cgroup.relativePath());
-    plugin->init(args, PluginConstructionContext(cgroup.cgroupFs()));
-    action_group.emplace_back(plugin);
+    if (plugin->init(args, plugin_context) != 0) {
+      // Not every action takes a cgroup (eg. systemd_restart): init() rejected
+      // the extra argument and left the plugin half initialized. Rebuild it
+      // with exactly the arguments it was configured with.
+      plugin.reset(registry.create(it->get()->getName()));
+      plugin->setName(it->get()->getName());
+      if (plugin->init(it->get()->getPluginArgs(), plugin_context) != 0) {
+        OLOG << "Failed to init action=" << it->get()->getName()
+             << " for cgroup: " << cgroup.absolutePath();
+      }
+    }
+    action_group.emplace_back(std::move(plugin));
   }
   auto ruleset = std::make_unique<Ruleset>(
       name_,
